@@ -429,18 +429,26 @@ for _p in ():
     PROPS[_p]['claimed'] = False
 
 # ------------------------------------------------------------------ translation tie (Rust AST regenerated by /verif/translator)
-CODE_TIE = {'C05': ['Client'], 'C06': ['Client'], 'C14': ['Client'], 'C01': ['Client', 'Updater', 'Extract', 'Drift'],
-            'C07': ['Extract'], 'C10': ['Extract', 'Leap'], 'C08': ['Updater'], 'C09': ['Updater'], 'C19': ['Drift'], 'C11': ['Gen']}
+CODE_TIE = {'C05': ['Client', 'Now'], 'C06': ['Client', 'Now'], 'C14': ['Client', 'Now', 'Errors'],
+            'C01': ['Client', 'Updater', 'Extract', 'Drift', 'Poller'],
+            'C07': ['Extract'], 'C10': ['Extract', 'Leap'], 'C08': ['Updater'], 'C09': ['Updater'], 'C19': ['Drift'],
+            'C02': ['Seqlock'], 'C03': ['Seqlock'], 'C04': ['Seqlock', 'Header'], 'C11': ['Seqlock'], 'C18': ['Seqlock'],
+            'C16': ['Header', 'Errors'], 'C17': ['Header', 'Errors'], 'C12': ['Poller', 'Now'], 'C13': ['Poller']}
 _TIE_WHAT = {'Client': 'ClockErrorBound::compute_bound_at = computeBoundAt', 'Leap': 'ChronyClockStatus::from(u16) = leapClass',
              'Extract': 'extract_bound_from_tracking = (boundF, classify)', 'Updater': 'ShmUpdater::{new, process_clock_update, process_missing_clock_update, write_clock_error_bound} = Updater.{new, step, record}',
              'Drift': 'the ppm->ppb conversion in main = driftPpb',
-             'Gen': 'the shared accesses of ShmWriter::write, with their memory orderings, and its generation arithmetic = [load gen Acquire, store genStart Release, fence Release, record copy, store genFinish(genStart) Release]'}
+             'Gen': 'the shared accesses of ShmWriter::write, with their memory orderings, and its generation arithmetic = [load gen Acquire, store genStart Release, fence Release, record copy, store genFinish(genStart) Release]',
+             'Seqlock': 'ShmWriter::write = SL.writerProg and ShmReader::snapshot = SL.readerProg for ALL streams of load results (events with their memory orderings, result, cached generation and record; induction on the retry budget), hence = the machines wStep / rStep of the C02/C03/C04/C11/C18 theorems (Properties/SeqlockProg), and Ann.adequate holds of the orderings in the source',
+             'Header': 'ShmHeader::{is_valid, read} = readHeader (order of checks and error kinds), ShmReader::new (FdGuard, MmapGuard, size check) = readerOpenLim for every file state, ShmWriter::segment_size() = 72',
+             'Poller': 'one iteration of run_clock_error_bound_poller with the real ClockErrorBoundPoller (get_tracking, is_within_grace_period, get_phc_error_bound_from_path) = pollTrace / pollStep for all inputs (order of clock read, query, Instant reads, sysfs read, send, wait; the message sent), Default = Poller.init, is_within_grace_period = withinGrace',
+             'Now': 'ClockErrorBound::now reads CLOCK_REALTIME (0) then CLOCK_MONOTONIC_COARSE (6), returns an Err of either read, and is compute_bound_at of exactly those two readings',
+             'Errors': 'From<ShmError> for ClockBoundError / clockbound_err = ShmErr.toClient (kind, errno, detail), the enum tables, ClockBoundClient::now and clockbound_now are ONE function of (snapshot result, now result), new_with_path and clockbound_open are ShmReader::new + the conversion, clockbound_close drops the context'}
 for _p, _g in CODE_TIE.items():
     if _p in PROPS:
         PROPS[_p]['code_tie'] = [f'ClockBound.Properties.CodeTie{_x}' for _x in _g]
         PROPS[_p]['level_text'] = PROPS[_p].get('level_text', '') + ' Translation tie (re-checked against the current source on every run): ' + '; '.join(f'CodeTie{_x}: for all inputs, the AST regenerated from the Rust source, run by the interpreter Rs.run, equals the model ({_TIE_WHAT[_x]})' for _x in _g) + '.'
         PROPS[_p]['trusted_base'] = list(PROPS[_p].get('trusted_base', [])) + [
-            'translation tie: the translator /verif/translator (syn 2 parser + printer; cfg(test) and cfg(clock_bound_verif) evaluated to false) and the interpreter lean/ClockBound/Rs/Interp.lean (one rule per Rust fact: checked integer arithmetic as in the dev profile, wrapping `as`, IEEE binary64 as in Model/F64 without exponent range, nix TimeSpec as in Model/Time, anything without a rule is `stuck`), Rs/Embed.lean (which Rust value a model value stands for); the FSM behind Box<dyn FSMState> is represented by fsmStep (tied by the regenerated transition table)']
+            'translation tie: the translator /verif/translator (syn 2 parser + printer; cfg(test) and cfg(clock_bound_verif) evaluated to false) and the interpreter lean/ClockBound/Rs/Interp.lean (one rule per Rust fact: checked integer arithmetic as in the dev profile, wrapping `as`, IEEE binary64 as in Model/F64 without exponent range, nix TimeSpec as in Model/Time, anything without a rule is `stuck`), Rs/Embed.lean (which Rust value a model value stands for); the FSM behind Box<dyn FSMState> is represented by fsmStep (tied by the regenerated transition table); per theorem group an extension dictionary Rs/Dict*.lean (what an atomic access, a libc call, a clock read, a channel operation, a raw pointer IS: one input from the environment and one logged event; nothing else) and Rs/Embed*.lean']
 
 # ------------------------------------------------------------------ translated constants (supplementary source tie)
 CONSTS = {'C05': 'Client', 'C06': 'Client', 'C14': 'Client', 'C18': 'Reader', 'C11': 'Gen', 'C16': 'Magic', 'C17': 'Magic',
